@@ -40,7 +40,7 @@ def run_case(cid, rng, workdir):
     stratum = cid[0]
     if stratum == "mods":
         return run_mods(cid, rng, workdir, res)
-    kw = {}
+    kw = {"link_opts": {"p_remove": 0.08, "p_replace": 0.15}}      # links that remove / retag atoms are part of the quantifier
     if stratum == "dup":
         kw = {"layouts": ["ff", "itp+ff"]}
     if stratum == "alias":
